@@ -59,6 +59,7 @@ def errs(state, sharded):
 rng = np.random.RandomState(seed + 13)
 shape = (4, 3)
 for sharded in (False, True):
+  jax.clear_caches()
   for thr in (0.1, 0.0, 1e30):
     for eigh, pcs in ((False, 1), (True, 1), (False, 2)):
       cases += 1
